@@ -222,10 +222,10 @@ theorem findSubseq_absent (ns : NewSsi) (h : ns.WF) (cur : Option Bytes) (bytes 
 
 /-! ## the reader on ANY file contents: truncated, corrupted, unsorted -/
 
-/-- `esl_ssi_Open` on ANY byte string succeeds or fails with `eslEFORMAT` / `eslERANGE` (documented; `eslEMEM` for a
-    zero file-name width) and never reads outside the file; on success it holds `nfiles ≥ 1` file records. -/
+/-- `esl_ssi_Open` on ANY byte string succeeds or fails with `eslEFORMAT` / `eslERANGE` (the documented statuses) and
+    never reads outside the file; on success it holds `nfiles ≥ 1` file records. -/
 theorem open_any_bytes (d : Array UInt8) :
-    (∀ e, Ssi.open d = .error e → e = .eformat ∨ e = .erange ∨ e = .emem) ∧
+    (∀ e, Ssi.open d = .error e → e = .eformat ∨ e = .erange) ∧
     (∀ s, Ssi.open d = .ok s → s.data = d ∧ 0 < s.nfiles ∧ s.files.length = s.nfiles ∧ (s.offsz = 4 ∨ s.offsz = 8)) :=
   open_status d
 
@@ -247,48 +247,43 @@ theorem bsearch_any_array (rdName : Nat → Except St Bytes) (key : Bytes) (n : 
 /-- `esl_ssi_FindName` on ANY opened byte string (truncated, corrupted, key sections not sorted): an `eslOK` answer
     carries the numbers of a stored primary record whose key field is exactly the probe, or of one reached from the probe
     through stored alias records (`Ssi.Resolves`) — absent or that key's record, never another key's. Every other answer
-    is `eslENOTFOUND`, `eslEFORMAT`, (`eslEMEM`,) or one of the model's two fault outcomes. -/
+    is `eslENOTFOUND` or `eslEFORMAT` (or `nohalt`: the alias recursion did not end); no read leaves a buffer
+    (key and name buffers carry their own terminator: repaired, DESIGN §7). -/
 theorem findName_any_index (s : Ssi) (key : Bytes) :
     (∀ hit, s.findName key = .ok hit → s.Resolves key hit) ∧
-    (∀ e, s.findName key = .error e → e = .enotfound ∨ e = .eformat ∨ e = .emem ∨ e = .fault ∨ e = .nohalt) :=
+    (∀ e, s.findName key = .error e → e = .enotfound ∨ e = .eformat ∨ e = .nohalt) :=
   ⟨fun hit h => findName_sound s FUEL key hit h, fun e h => findName_status s FUEL key e h⟩
 
-/-- **no fault**: when the key fields that can be read are terminated (`Ssi.Terminated`) and no stored alias names
-    another stored alias (`Ssi.NoAliasChain`) — both true of every index `Write` produces, and both readable off the
-    bytes — `FindName` on an index that is otherwise arbitrary (truncated anywhere, unsorted, counts and offsets
-    inconsistent) ends with `eslOK`, `eslENOTFOUND`, `eslEFORMAT` or `eslEMEM`: `strcmp` stays inside its buffers and
-    the alias recursion is one level deep. -/
-theorem findName_no_fault (s : Ssi) (ht : s.Terminated) (hc : s.NoAliasChain) (key : Bytes) :
-    (∃ hit, s.findName key = .ok hit) ∨ s.findName key = .error .enotfound ∨ s.findName key = .error .eformat ∨
-      s.findName key = .error .emem := by
+/-- **documented status set, no fault**: when no stored alias names another stored alias (`Ssi.NoAliasChain`: true of
+    every index `Write` produces, `written_index_no_alias_chain`, and readable off the bytes) `FindName` on an index that
+    is otherwise arbitrary (truncated anywhere, unsorted, counts, widths and offsets inconsistent, key fields without
+    terminator) ends with `eslOK`, `eslENOTFOUND` or `eslEFORMAT`. -/
+theorem findName_no_fault (s : Ssi) (hc : s.NoAliasChain) (key : Bytes) :
+    (∃ hit, s.findName key = .ok hit) ∨ s.findName key = .error .enotfound ∨ s.findName key = .error .eformat := by
   cases hf : s.findName key with
   | ok hit => exact .inl ⟨hit, rfl⟩
   | error e =>
     right
     have h1 := findName_status s FUEL key e hf
-    have h2 := EaselModel.Ssi.findName_no_fault s ht FUEL key
     have h3 := findName_halts s hc (FUEL - 2) key
-    rcases h1 with rfl | rfl | rfl | rfl | rfl
+    rcases h1 with rfl | rfl | rfl
     · exact .inl rfl
-    · exact .inr (.inl rfl)
-    · exact .inr (.inr rfl)
-    · exact absurd hf h2
+    · exact .inr rfl
     · exact absurd hf h3
 
-/-- non-vacuity of `findName_no_fault`: both conditions hold for EVERY index `Write` produces from keys whose alias
-    targets are registered (and then for each of its truncations the first one still holds for the fields that remain
-    readable: a field that no longer fits the file is a short read, `eslEFORMAT`) -/
-theorem written_index_no_fault_conditions (ns : NewSsi) (h : ns.WF) (cur : Option Bytes) (bytes : Bytes)
+/-- non-vacuity of `findName_no_fault`: the condition holds for EVERY index `Write` produces from keys whose alias
+    targets are registered -/
+theorem written_index_no_alias_chain (ns : NewSsi) (h : ns.WF) (cur : Option Bytes) (bytes : Bytes)
     (hw : (ns.write cur).2.2 = some bytes) (htg : ∀ a ∈ ns.skeys, ∃ k ∈ ns.pkeys, a.pkey = k.key) :
-    ∃ s, Ssi.open bytes.toArray = .ok s ∧ s.Terminated ∧ s.NoAliasChain := by
+    ∃ s, Ssi.open bytes.toArray = .ok s ∧ s.NoAliasChain := by
   obtain ⟨hd, rfl⟩ := written_file ns h cur bytes hw
-  exact ⟨ns.opened, open_image h, image_terminated h htg, image_noAliasChain h hd htg⟩
+  exact ⟨ns.opened, open_image h, image_noAliasChain h hd htg⟩
 
 /-- `esl_ssi_FindNumber` on ANY index, for every `int64_t`: `eslENOTFOUND` exactly outside `0..nprimary-1`; inside,
-    the record in that slot or `eslEFORMAT` when the file ends first (`eslEMEM` for a zero-width key field) -/
+    the record in that slot or `eslEFORMAT` when the file ends first -/
 theorem findNumber_any_index (s : Ssi) (i : Int) (hlo : -(2:Int)^63 ≤ i) (hhi : i < (2:Int)^63) (hn : s.nprimary < 2^63) :
     (s.findNumber i = .error .enotfound ↔ (i < 0 ∨ (s.nprimary : Int) ≤ i)) ∧
-    (∀ e, s.findNumber i = .error e → e = .enotfound ∨ e = .eformat ∨ e = .emem) :=
+    (∀ e, s.findNumber i = .error e → e = .enotfound ∨ e = .eformat) :=
   findNumber_status s i hlo hhi hn
 
 /-- `esl_ssi_FileInfo` for EVERY handle of ANY index that `Open` accepted: a record below `nfiles`, `eslEINVAL` otherwise -/
@@ -297,14 +292,13 @@ theorem fileInfo_any_index (d : Array UInt8) (s : Ssi) (h : Ssi.open d = .ok s) 
     (s.nfiles ≤ fh → s.fileInfo fh = .error .einval) :=
   fileInfo_total d s h fh
 
-/-- `esl_ssi_FindSubseq` on ANY index: `FindName`'s status, `eslERANGE`, `eslEINVAL`, or a fault in exactly two
-    situations that a written index excludes: the file handle stored with the key is not a file of the index, or its file
-    claims fast-subseq geometry with `rpl = 0` -/
-theorem findSubseq_any_index (s : Ssi) (key : Bytes) (start : Int) (e : St) (h : s.findSubseq key start = .error e) :
-    (s.findName key = .error e) ∨ e = .erange ∨ e = .einval ∨
-    (e = .fault ∧ ∃ hit, s.findName key = .ok hit ∧
-      (s.files[hit.fh]? = none ∨ ∃ f, s.files[hit.fh]? = some f ∧ f.flags % 2 = 1 ∧ f.rpl = 0)) :=
-  findSubseq_status s key start e h
+/-- `esl_ssi_FindSubseq` on ANY byte string that `Open` accepted: `eslOK`, `FindName`'s status, `eslERANGE`,
+    `eslEFORMAT` (the file handle stored with the key is not a file of the index) or `eslEINVAL` (fast-subseq flag with
+    `rpl = 0` or `bpl = 0`) — it never indexes outside the per-file arrays and never divides by zero (repaired) -/
+theorem findSubseq_any_index (d : Array UInt8) (s : Ssi) (ho : Ssi.open d = .ok s) (key : Bytes) (start : Int) (e : St)
+    (h : s.findSubseq key start = .error e) :
+    (s.findName key = .error e) ∨ e = .erange ∨ e = .eformat ∨ e = .einval :=
+  findSubseq_status s ((open_status d).2 s ho).2.2.1 key start e h
 
 /-! ## `esl_newssi_AddFile` and duplicate names -/
 
